@@ -1,8 +1,13 @@
 package props
 
 import (
+	"fmt"
+
+	cedar "github.com/cedar-policy/cedar-go"
 	"github.com/cedar-policy/cedar-go/types"
 	"github.com/cedar-policy/cedar-go/x/exp/ast"
+
+	"verif/internal/mon"
 )
 
 // conditions: the operator forms inside a when-clause of a policy that goes through the
@@ -40,6 +45,84 @@ func (r *c03runner) conditions() {
 			r.authz("when { principal in [set literal] }", when(in(principal, ast.NodeTypeSet{Elements: nodes})), s, sub, want)
 		}
 	}
+}
+
+// c03sameObject: ONE policy set object, compiled once, is asked the same question against
+// every store in turn (all digraphs on 3 nodes x all presence subsets, in two orders). The
+// answer depends on the store handed to the call, not on what an earlier call saw.
+func c03sameObject(c *mon.Ctx) {
+	const n = 3
+	when := func(body ast.IsNode) *ast.Policy {
+		return &ast.Policy{Effect: ast.EffectPermit, Principal: ast.ScopeTypeAll{}, Action: ast.ScopeTypeAll{}, Resource: ast.ScopeTypeAll{},
+			Conditions: []ast.ConditionType{{Condition: ast.ConditionWhen, Body: body}}}
+	}
+	in := func(l, rr ast.IsNode) ast.IsNode { return ast.NodeTypeIn{BinaryNode: ast.BinaryNode{Left: l, Right: rr}} }
+	principal := ast.NodeTypeVariable{Name: "principal"}
+	type form struct {
+		name string
+		mk   func(s, t int) *ast.Policy
+		set  bool // target is {t, t+1 mod n}
+	}
+	forms := []form{
+		{"when { principal in literal }", func(s, t int) *ast.Policy { return when(in(principal, uidNode(t))) }, false},
+		{"when { literal in literal }", func(s, t int) *ast.Policy { return when(in(uidNode(s), uidNode(t))) }, false},
+		{"when { principal is <own type> in literal }", func(s, t int) *ast.Policy {
+			return when(ast.NodeTypeIsIn{NodeTypeIs: ast.NodeTypeIs{Left: principal, EntityType: c03uids[s].Type}, Entity: uidNode(t)})
+		}, false},
+		{"when { principal in [set literal] }", func(s, t int) *ast.Policy {
+			return when(in(principal, ast.NodeTypeSet{Elements: []ast.IsNode{uidNode(t), uidNode((t + 1) % n)}}))
+		}, true},
+		{"scope principal in E", func(s, t int) *ast.Policy {
+			return &ast.Policy{Effect: ast.EffectPermit, Principal: ast.ScopeTypeIn{Entity: c03uids[t]}, Action: ast.ScopeTypeAll{}, Resource: ast.ScopeTypeAll{}}
+		}, false},
+		{"scope resource is <own type> in E", func(s, t int) *ast.Policy {
+			return &ast.Policy{Effect: ast.EffectPermit, Principal: ast.ScopeTypeAll{}, Action: ast.ScopeTypeAll{}, Resource: ast.ScopeTypeIsIn{Type: c03uids[s].Type, Entity: c03uids[t]}}
+		}, false},
+		{"scope action in [set]", func(s, t int) *ast.Policy {
+			return &ast.Policy{Effect: ast.EffectPermit, Principal: ast.ScopeTypeAll{}, Action: ast.ScopeTypeInSet{Entities: []types.EntityUID{c03uids[t], c03uids[(t+1)%n]}}, Resource: ast.ScopeTypeAll{}}
+		}, true},
+	}
+	c.ParFor("same-policy-object-across-stores", len(forms)*n*n*2, func(w *mon.W, i int) {
+		f, s, t, rev := forms[i%len(forms)], (i/len(forms))%n, (i/(len(forms)*n))%n, i/(len(forms)*n*n) == 1
+		ps := cedar.NewPolicySet()
+		ps.Add("p", cedar.NewPolicyFromAST((*cedarASTPolicy)(f.mk(s, t))))
+		targets := uint16(1) << t
+		if f.set {
+			targets |= 1 << ((t + 1) % n)
+		}
+		total := (1 << (n * n)) * (1 << n)
+		for k := 0; k < total; k++ {
+			j := k
+			if rev {
+				j = total - 1 - k
+			}
+			g := fromBits(n, uint64(j>>n), uint16(j&(1<<n-1)))
+			r := newC03runner(w, g)
+			want := g.reach(s)&targets != 0
+			r.getter.Calls, r.getter.Budget = 0, r.budget()
+			var got bool
+			var bad string
+			func() {
+				defer func() {
+					if x := recover(); x != nil {
+						bad = fmt.Sprintf("panic or budget: %v", x)
+					}
+				}()
+				dec, diag := cedar.Authorize(ps, r.getter, cedar.Request{Principal: c03uids[s], Action: c03uids[s], Resource: c03uids[s]})
+				if len(diag.Errors) > 0 {
+					bad = "error: " + diag.Errors[0].Message
+				}
+				got = dec == cedar.Allow
+			}()
+			w.Evals(1)
+			if bad != "" || got != want {
+				r.report(f.name+", one policy object asked against many stores in turn", s, targets, got, bad, want)
+				return
+			}
+		}
+		w.Count("one compiled policy object evaluated against all 3-node stores")
+		w.NonTrivial(fmt.Sprintf("same-object/%d", i))
+	})
 }
 
 // afterFailure: every set-valued query again, each one directly after a membership test that
